@@ -161,23 +161,24 @@ type PacketConnReader interface {
 
 // defaultReader is an adapter for the Server struct that implements the Reader and
 // PacketConnReader interfaces using the readTCP, readUDP and readPacketConn funcs
-// of the embedded Server.
+// of the embedded Server. It belongs to one run of the Server (see Server.serving).
 type defaultReader struct {
 	*Server
+	run chan struct{}
 }
 
 var _ PacketConnReader = defaultReader{}
 
 func (dr defaultReader) ReadTCP(conn net.Conn, timeout time.Duration) ([]byte, error) {
-	return dr.readTCP(conn, timeout)
+	return dr.readTCP(conn, timeout, dr.run)
 }
 
 func (dr defaultReader) ReadUDP(conn *net.UDPConn, timeout time.Duration) ([]byte, *SessionUDP, error) {
-	return dr.readUDP(conn, timeout)
+	return dr.readUDP(conn, timeout, dr.run)
 }
 
 func (dr defaultReader) ReadPacketConn(conn net.PacketConn, timeout time.Duration) ([]byte, net.Addr, error) {
-	return dr.readPacketConn(conn, timeout)
+	return dr.readPacketConn(conn, timeout, dr.run)
 }
 
 // DecorateReader is a decorator hook for extending or supplanting the functionality of a Reader.
@@ -531,7 +532,7 @@ func (srv *Server) serveUDP(l net.PacketConn, shutdown chan struct{}) error {
 		close(shutdown)
 	}()
 
-	reader := Reader(defaultReader{srv})
+	reader := Reader(defaultReader{srv, shutdown})
 	if srv.DecorateReader != nil {
 		reader = srv.DecorateReader(reader)
 	}
@@ -603,7 +604,7 @@ func (srv *Server) serveTCPConn(wg *sync.WaitGroup, rw net.Conn, run chan struct
 		w.writer = w
 	}
 
-	reader := Reader(defaultReader{srv})
+	reader := Reader(defaultReader{srv, run})
 	if srv.DecorateReader != nil {
 		reader = srv.DecorateReader(reader)
 	}
@@ -720,13 +721,15 @@ func (srv *Server) serveDNS(m []byte, w *response) {
 	srv.Handler.ServeDNS(w, req) // Writes back to the client
 }
 
-func (srv *Server) readTCP(conn net.Conn, timeout time.Duration) ([]byte, error) {
+func (srv *Server) readTCP(conn net.Conn, timeout time.Duration, run chan struct{}) ([]byte, error) {
 	// If we race with ShutdownContext, the read deadline may
 	// have been set in the distant past to unblock the read
 	// below. We must not override it, otherwise we may block
-	// ShutdownContext.
+	// ShutdownContext. That the server is started is not enough:
+	// it may have been started again since the run this read
+	// belongs to was shut down.
 	srv.lock.RLock()
-	if srv.started {
+	if srv.started && srv.shutdown == run {
 		conn.SetReadDeadline(time.Now().Add(timeout))
 	}
 	srv.lock.RUnlock()
@@ -755,9 +758,9 @@ func (srv *Server) getUDPBuffer() []byte {
 	return m
 }
 
-func (srv *Server) readUDP(conn *net.UDPConn, timeout time.Duration) ([]byte, *SessionUDP, error) {
+func (srv *Server) readUDP(conn *net.UDPConn, timeout time.Duration, run chan struct{}) ([]byte, *SessionUDP, error) {
 	srv.lock.RLock()
-	if srv.started {
+	if srv.started && srv.shutdown == run {
 		// See the comment in readTCP above.
 		conn.SetReadDeadline(time.Now().Add(timeout))
 	}
@@ -773,9 +776,9 @@ func (srv *Server) readUDP(conn *net.UDPConn, timeout time.Duration) ([]byte, *S
 	return m, s, nil
 }
 
-func (srv *Server) readPacketConn(conn net.PacketConn, timeout time.Duration) ([]byte, net.Addr, error) {
+func (srv *Server) readPacketConn(conn net.PacketConn, timeout time.Duration, run chan struct{}) ([]byte, net.Addr, error) {
 	srv.lock.RLock()
-	if srv.started {
+	if srv.started && srv.shutdown == run {
 		// See the comment in readTCP above.
 		conn.SetReadDeadline(time.Now().Add(timeout))
 	}
